@@ -196,6 +196,7 @@ def agg_cases(draw):
           'router': draw(st.sampled_from(['aggregated-consistent-hashing', 'aggregated-consistent-hashing',
                                           'fast-aggregated-hashing'])),
           'names': [n for n in names if n], 'comment_lines': draw(st.booleans()), 'rules2_file_removed': removed,
+          'same_second': draw(st.integers(0, 2)) == 0,
           # the documented name-lookup cache of the rules (off by default)
           'cache': draw(st.sampled_from(['off', 'off', 'lru', 'ttl']))}
 
@@ -231,7 +232,9 @@ def execute_agg(ctx, case):
     lines.append(aggpat.render(r, style))
   with open(path, 'w') as f:
     f.write('\n'.join(lines) + '\n')
-  os.utime(path, (1500000000, 1500000000))   # a file written in the past, like every real rules file
+  # a file written in the past, like every real rules file (sub-second mtimes: file systems have them)
+  t1 = 1500000000.25 if case.get('same_second') else 1500000000
+  os.utime(path, (t1, t1))
   RM = b.rules.RuleManager
   RM.rules_last_read = 0.0
   settings = c05.FakeSettings(REPLICATION_FACTOR=case['rf'], DIVERSE_REPLICAS=case['diverse'], ROUTER_HASH_TYPE=c05.as_configured(case['hash']),
@@ -277,7 +280,8 @@ def execute_agg(ctx, case):
       else:
         with open(path, 'w') as f:
           f.write('\n'.join(aggpat.render(r, 0) for r in current_rules) + '\n')
-        os.utime(path, (1500000100, 1500000100))
+        t2 = 1500000000.75 if case.get('same_second') else 1500000100     # possibly edited within the same second
+        os.utime(path, (t2, t2))
       try:
         RM.read_rules()          # what the manager's 10 s reload task calls
       except Exception as e:  # noqa
